@@ -310,3 +310,43 @@ func TestVerifC16Generator(t *testing.T) {
 	}
 	r.Note("default-randomness generations are a smoke test (sampling), not part of the exhaustive claim")
 }
+
+// TestVerifC16Lengths: every even modulus length of a window, not only the multiples of 16 that the
+// parameter tables use: sizes of byte buffers, bit masks and the length match of the product all depend
+// on Ln mod 16.  Generation must return (a liveness horizon turns a generator that spins into a
+// violation) with a well-formed key and no worker left.
+func TestVerifC16Lengths(t *testing.T) {
+	r := vkit.Start(t, "C16", "every-even-length", 200*time.Second, 900*time.Second)
+	defer r.Finish()
+	hi := uint(vkit.Pick(162, 226))
+	r.Rule = fmt.Sprintf("GenerateKeyPair for EVERY even Ln in [128,%d] (prime sizes of every residue modulo 8) with 2 bases, default randomness, 2 generations each; non-trivial = distinct (Ln, repetition); oracle: returns within the liveness horizon (no evaluation completed for 150 s => non-termination), full well-formedness predicate, no goroutine left running", hi)
+	cur := ""
+	defer r.Watch(150*time.Second, func() string { return cur })()
+	for ln := uint(128); ln <= hi; ln += 2 {
+		if _, mine := r.Next(); !mine {
+			continue
+		}
+		if r.Expired() {
+			return
+		}
+		for rep := 0; rep < 2; rep++ {
+			cur = fmt.Sprintf("GenerateKeyPair at Ln=%d (primes of %d bits)", ln, ln/2)
+			param := c16Params(ln)
+			baseline := runtime.NumGoroutine()
+			sk, pk, err := GenerateKeyPair(param, 2, 1, time.Unix(1900000000, 0))
+			r.Eval()
+			r.Nontrivial(fmt.Sprintf("len|%d|%d", ln, rep))
+			r.Outcome(fmt.Sprintf("Ln mod 16=%d:generated=%v", ln%16, err == nil))
+			if err != nil {
+				r.Violate("C16|generation-failed", fmt.Sprintf("Ln=%d: %v", ln, err), ln)
+				continue
+			}
+			if bad := c16KeyPredicate(sk, pk, param, 2); len(bad) > 0 {
+				r.Violate("C16|malformed-key|"+bad[0], fmt.Sprintf("Ln=%d: %v", ln, bad), ln)
+			}
+			if n := c16WaitGoroutines(baseline); n > baseline {
+				r.Violate("C16|worker-left-running|free-running", fmt.Sprintf("Ln=%d: %d goroutines before, %d after", ln, baseline, n), ln)
+			}
+		}
+	}
+}
